@@ -366,11 +366,10 @@ theorem whitespace_filter_skeleton (norm : Bool → Str → Str) (cfg : WsCfg) :
       ∀ (c : Bool) (st : FlatSt) (es : List QEv) (out : List FEv),
         WellNested (toStreamQ es) → flatten c st es = some out → WellNested (toStreamF out)
 
-  is not proved here, and for the real `NamespaceFlattener` it is false in general for streams
-  that do not come from a serializer pipeline: the prefixed name written for an END is computed
-  from the namespace bindings in force when the END arrives, so START_NS / END_NS events placed
-  inside an element (instead of directly around it), or a prefix re-bound between START and END,
-  give an END whose name differs from that of its START.  What is proved: on the domain of the
+  is not proved here for C08/C09's lite model `Output.flatten` (it answers `none` outside its domain);
+  for C02's total model of the same filter (`Genshi.Xml.flatRun`) the statement IS proved, full strength,
+  in `Lemmas/TfSerialNs.lean` (`ns_flattener_wellnested`: the filter keeps the open elements on a stack,
+  so the name written for an END is the name written for its START).    What is proved: on the domain of the
   owners' theorems `filtered_forest` (flattenings of forests without namespaces) and
   `filtered_forestU` (forests all of whose elements are in one namespace `u`, no namespace
   events) the output of the whole filter chain (EmptyTagFilter, NamespaceFlattener; no
